@@ -137,3 +137,24 @@ func verifHarnessC19HandleStamps() {
 	assert("handle-registered", mapHas(s.active.f, name))
 	reach("end-known")
 }
+
+// C11: the poll ticker is created with interval + jitter, |jitter| <= interval/10, for every interval and every rand.Intn result.
+func verifHarnessC11Jitter() {
+	verifEnvReset()
+	client := &verifClient{}
+	s := verifSymStore(0, client, nil)
+	interval := time.Duration(nondetI64("interval"))
+	assume(and(interval >= 5, interval < 1<<62)) // below 5ns rand.Intn(0) panics, above 2^62 the doubling overflows: stated bounds
+	var got time.Duration
+	ticks := 0
+	tick := &verifTicker{}
+	s.newTicker = func(d time.Duration) Ticker { got = d; ticks++; return tick }
+	ctx := &verifCtx{tag: "poller", cancelled: true}
+	done := make(chan struct{})
+	s.run(ctx, interval, done)
+	assert("one-ticker", ticks == 1)
+	tenth := interval / 10
+	assert("within-ten-percent", and(got >= interval-tenth, got <= interval+tenth))
+	assert("ticker-stopped", tick.stopped)
+	reach("end")
+}
